@@ -239,7 +239,17 @@ def interp(ast, env, cx):
         return out
     if k == "op":
         f = SEM[ast[1]]
-        return par([interp(ast[2], env, cx), interp(ast[3], env, cx)]).then(lambda ab: attempt(f, ab[0], ab[1]))
+        mirror = {"lt": "gt", "gt": "lt", "le": "ge", "ge": "le"}.get(ast[1])
+
+        def apply_op(ab):
+            out = attempt(f, ab[0], ab[1])
+            if mirror and out.errs:
+                # `plain < lazy` is evaluated by Python as the reflected `lazy > plain`: the same
+                # outcome, but a TypeError then names the mirrored operator and operand order
+                out = Out(out.oks, out.errs + attempt(SEM[mirror], ab[1], ab[0]).errs, out.overflow)
+            return out
+
+        return par([interp(ast[2], env, cx), interp(ast[3], env, cx)]).then(apply_op)
     if k == "getitem":
         return interp(ast[1], env, cx).then(lambda v: attempt(lambda: v[ast[2]]))
     if k == "getattr":
@@ -289,7 +299,52 @@ def interp(ast, env, cx):
         return Out(oks, errs, over)
     if k == "catch_all":
         items, kinds, body = ast[1], ast[2], ast[3]
-        outs = [interp(a, env, cx) for a in items]
+
+        # catch_all evaluates the LEAVES of the nested value it is given (map_nested_value): a
+        # container written in place contributes its elements as separate terms, and recover()
+        # receives the same nesting with results or errors at the leaves.
+        def shape(a, e_, c_):
+            while a[0] == "var" and isinstance(e_.get(a[1]), Thunk):
+                th = e_[a[1]]
+                a, e_, c_ = th.ast, th.env, th.cx
+            if a[0] in ("list", "tuple", "set"):
+                return (a[0], [shape(x, e_, c_) for x in a[1]])
+            if a[0] == "dict":
+                return ("dict", [key for key, _ in a[1]], [shape(v, e_, c_) for _, v in a[1]])
+            if a[0] in ("nt", "dc"):
+                return (a[0], [shape(a[1], e_, c_), shape(a[2], e_, c_)])
+            return ("leaf", interp(a, e_, c_))
+
+        def leaves(sh, acc):
+            if sh[0] == "leaf":
+                acc.append(sh[1])
+            else:
+                for c in sh[-1]:
+                    leaves(c, acc)
+            return acc
+
+        def has_set(sh):
+            return sh[0] == "set" or (sh[0] != "leaf" and any(has_set(c) for c in sh[-1]))
+
+        def rebuild(sh, it):
+            if sh[0] == "leaf":
+                return next(it)
+            kids = [rebuild(c, it) for c in sh[-1]]
+            if sh[0] == "list":
+                return kids
+            if sh[0] == "tuple":
+                return tuple(kids)
+            if sh[0] == "set":
+                return set(kids)
+            if sh[0] == "dict":
+                return dict(zip(sh[1], kids))
+            if sh[0] == "nt":
+                return T.Point(*kids)
+            return T.Rec(a=kids[0], b=kids[1])
+
+        top = ("list", [shape(a, env, cx) for a in items])
+        outs = leaves(top, [])
+        unordered = has_set(top)
         alts = [[("ok", v) for v in o.oks] + [("err", e) for e in o.errs] for o in outs]
         oks, errs = [], []
         total = 1
@@ -298,20 +353,27 @@ def interp(ast, env, cx):
         over = any(o.overflow for o in outs) or total > CAP
         for combo in itertools.islice(itertools.product(*alts), CAP):
             es = [v for t, v in combo if t == "err"]
-            vals = [v for _, v in combo]
+            classes = tuple(ERR[c] for c in kinds) if body is not None else ()
+            vals = None
+            if not es or (body is not None and all(isinstance(e, classes) for e in es)):
+                try:
+                    vals = rebuild(top, iter([v for _, v in combo]))
+                except Exception as e:  # noqa: BLE001 - e.g. unhashable set element: raised while resolving
+                    errs.append(e)
+                    continue
             if not es:
                 oks.append(vals)
             elif body is None:
-                errs.append(es[0])
+                errs.extend(es if unordered else es[:1])
             else:
-                classes = tuple(ERR[c] for c in kinds)
                 if all(isinstance(e, classes) for e in es):
                     r = run_job(body, {"x": vals}, cx)
                     oks.extend(r.oks)
                     errs.extend(r.errs)
                     over = over or r.overflow
                 else:
-                    errs.append(next(e for e in es if not isinstance(e, classes)))
+                    bad = [e for e in es if not isinstance(e, classes)]
+                    errs.extend(bad if unordered else bad[:1])
         return Out(oks, errs, over)
     if k == "map":
         body, binds, xs = ast[1], ast[2], ast[3]
@@ -356,6 +418,15 @@ def interp(ast, env, cx):
             # fused: compose(g, f) applied per element, elements in parallel
             return par([run_job(f, {"x": x}, cx).then(lambda y: run_job(g, {"x": y}, cx)) for x in seq_])
 
+        # as for "map": the elements of a list written in place are passed on unevaluated, each
+        # evaluated as the argument of its own composed call, in parallel with the others
+        static, senv, scx = xs, env, cx
+        while static[0] == "var" and isinstance(senv.get(static[1]), Thunk):
+            th = senv[static[1]]
+            static, senv, scx = th.ast, th.env, th.cx
+        if static[0] == "list":
+            return par([interp(e, senv, scx).then(lambda x: run_job(f, {"x": x}, cx)).then(lambda y: run_job(g, {"x": y}, cx))
+                        for e in static[1]])
         return interp(xs, env, cx).then(over2)
     if k == "flat_map":
         body, xs = ast[1], ast[2]
@@ -368,6 +439,14 @@ def interp(ast, env, cx):
             return par([run_job(body, {"x": x}, cx) for x in seq_]).then(
                 lambda lists: attempt(lambda: [v for lst in lists for v in lst]))
 
+        # flat_map = flatten(map_(..)): a list written in place is mapped element by element (see "map")
+        static, senv, scx = xs, env, cx
+        while static[0] == "var" and isinstance(senv.get(static[1]), Thunk):
+            th = senv[static[1]]
+            static, senv, scx = th.ast, th.env, th.cx
+        if static[0] == "list":
+            return par([interp(e, senv, scx).then(lambda x: run_job(body, {"x": x}, cx)) for e in static[1]]).then(
+                lambda lists: attempt(lambda: [v for lst in lists for v in lst]))
         return interp(xs, env, cx).then(overf)
     if k == "apply":
         f = PYF[ast[1]]
